@@ -37,6 +37,7 @@ class Component(PrintObject):
     if DEBUG: print("%s: sequence %s" % (self.name, name))
     self.check_user_name(name)
     self.assertTrue( name not in self.seqs, "Duplicate sequence definition for '%s'" % name )
+    self.assertTrue( name not in self.structs, "Sequence '%s' has the name of a structure (designs list both under one name)" % name )
     try:
       seq = Sequence(name, self.prefix, const, length)
     except AssertionError as e:
@@ -77,6 +78,7 @@ class Component(PrintObject):
     if DEBUG: print("%s: super-sequence %s" % (self.name, name))
     self.check_user_name(name)
     self.assertTrue( name not in self.seqs, "Duplicate sequence definition for '%s'" % name )
+    self.assertTrue( name not in self.structs, "Sequence '%s' has the name of a structure (designs list both under one name)" % name )
     const = self.clean_const(const, name)
     try:
       seq = SuperSequence(name, self.prefix, const, length)
@@ -118,6 +120,8 @@ class Component(PrintObject):
   def add_structure(self, opt, name, strands, struct):
     if DEBUG: print("%s: structure %s" % (self.name, name))
     self.assertTrue( name not in self.structs, "Duplicate structure definition for '%s'" % name )
+    self.check_user_name(name)
+    self.assertTrue( name not in self.seqs, "Structure '%s' has the name of a sequence (designs list both under one name)" % name )
     
     # Convert from list of strand names to list of strands
     for n, strand in enumerate(strands):
